@@ -110,6 +110,9 @@ def run(ck):
                 ok, why = True, "object created in this function (make_shared), unpublished"
             elif base in assumed or root in assumed:
                 ok, why = True, "parameter '%s' is locked by the caller (precondition verified at every Request::resolve/reject call)" % root
+            elif not lib.holds(ls.get((e.block, e.idx)), MTX, base) and base.startswith("this->") and not f.is_lambda and \
+                    all((s_.get("recv") or {}).get("t") in ("this", None) for s_ in prog.call_sites(f.base)) and lib.caller_holds(prog, f, MTX, base):
+                ok, why = True, "member helper called on this: every call site holds %s->mtx (checked at %d call sites)" % (base, len(prog.call_sites(f.base)))
             elif not lib.holds(ls.get((e.block, e.idx)), MTX, base) and root in {p_["name"] for p_ in f.params} and caller_locked(f, root):
                 ok, why = True, "helper working on its parameter '%s': every call site holds that core's mtx (checked at %d call sites)" % (root, len(prog.call_sites(f.base)))
             else:
